@@ -80,6 +80,8 @@ def val_py(j):
         return np.array(v[1], dtype=v[0])
     if k == "str":
         return v
+    if k == "key":
+        return key_py(v)          # a constant used as an item key: str / int / bool / None / {"f": hex} / {"t": [keys]}
     raise ValueError(j)
 
 
@@ -151,6 +153,10 @@ class Env:
         o.pos = Obj()               # an object that hangs off an attribute
         o.pos.x, o.pos.y = 3.0, 4.0
         self.box["o"] = o
+        # keys of every kind that `repr` prints structurally (C11 / C06: tuple, bool, None, negative, float keys);
+        # K[True] / K[False] select the entries 1 / 0; plain values only (snapshots compare the box by ==)
+        self.box["K"] = {(1, "a"): {(3,): 1.5}, (3,): 22, (): 23, None: 24, -1: 25, 0.5: 26, -2.5: 27, (1, (2, 3)): 28,
+                         0: 29, 1: 31, (-1, 0.5, None, True): 30, ((),): 32}
         self.r = self.m.ref(self.box, "r")
         self.ob = self.m.ref(o, "ob")          # the same object also as a TOP-LEVEL container: ob.pos.x has no item owner
         self.f = self.m.ref(dict(FUNCS), "f")
@@ -633,6 +639,17 @@ def run_case(case, fail, stats):
         case["_pexpr"] = pexpr_of(node)
         case["_tokens"] = py_tokens(text)
         case["_text"] = text
+        if case["_pexpr"] is not None and has_ext_key(case["_pexpr"]):
+            stats["print_ext_key_cases"] = stats.get("print_ext_key_cases", 0) + 1
+        if case.get("keys"):
+            # the structure read from the object's fields (what the model prints and parses back) is the tree the
+            # harness built the expression from
+            want = term_pexpr(t)
+            if want is not None:
+                stats["print_tree_checks"] = stats.get("print_tree_checks", 0) + 1
+                if want != case["_pexpr"]:
+                    fail("C11", "fields-differ-from-built-tree", {"term": t, "text": text, "built": want, "fields": case["_pexpr"]})
+                    return
         ns = dict(env.m.containers)
         back = outcome(lambda: eval(text, {"math": math}, ns))
         if back[0] != "ok":
@@ -750,13 +767,15 @@ def run_case(case, fail, stats):
 
 def pexpr_of(obj):
     """structure of a real ref/expression, read from its fields, in the language of XModel/Parse.lean;
-    None when the object is outside that language (floats, kwargs, tuple keys, ...)"""
+    None when the object is outside that language (complex constants, numpy scalars, computed keys, ...).
+    Item keys: a str / int key is itself (the language of XModel/Parse.lean); a bool / None / finite float / tuple key is
+    written in the key language of XModel/ParseKeys.lean (see `key_json`)"""
     if isinstance(obj, R.Ref):
         return ["root", obj._key]
     if isinstance(obj, R.ItemRef):
         o = pexpr_of(obj._owner)
-        k = obj._key
-        if o is None or type(k) not in (str, int):       # bools, numpy scalars, tuples, floats: outside the printer model
+        k = key_json(obj._key)
+        if o is None or k is OUTSIDE:        # numpy scalars, bytes, inf / nan, computed keys, objects: outside the printer model
             return None
         return ["item", o, k]
     if isinstance(obj, R.AttrRef):
@@ -802,6 +821,88 @@ def pexpr_of(obj):
     if isinstance(obj, bool) or not isinstance(obj, int):
         return None
     return ["lit", obj]
+
+
+OUTSIDE = object()
+
+
+def key_json(k):
+    """an item key of a real ItemRef in the key language of the extended printer model (KeyPrint.KeyX): str, int,
+    true / false, null, {"f": [negative, repr(abs(x))]} for a finite float, {"t": [keys]} for a tuple; OUTSIDE otherwise"""
+    if type(k) in (str, int, bool) or k is None:
+        return k
+    if type(k) is float:
+        if k != k or k in (float("inf"), float("-inf")):
+            return OUTSIDE
+        return {"f": [math.copysign(1.0, k) < 0, repr(abs(k))]}
+    if type(k) is tuple:
+        ks = [key_json(x) for x in k]
+        return OUTSIDE if any(x is OUTSIDE for x in ks) else {"t": ks}
+    return OUTSIDE
+
+
+def has_ext_key(p):
+    """does the structure have an item key outside str | int (i.e. is it outside XModel/Parse.lean's language)?"""
+    if isinstance(p, list):
+        if p and p[0] == "item" and (isinstance(p[2], (bool, dict)) or p[2] is None):
+            return True
+        return any(has_ext_key(x) for x in p)
+    return False
+
+
+def term_pexpr(t):
+    """the structure that the TERM — the tree the harness builds the expression from — denotes in the printed language,
+    or None where the term alone does not determine it (constants folded by Python, reflected comparisons, literals that
+    are not int / finite float, computed keys, wrapped callables)"""
+    k = t[0]
+    if k == "ref":
+        return ["item", ["root", "r"], t[1]]
+    if k == "root":
+        return ["root", "r"]
+    if k == "obroot":
+        return ["root", "ob"]
+    if k in ("lit", "litexpr"):
+        v = val_py(t[1])
+        if type(v) is int:
+            return ["lit", v]
+        if type(v) is float and v == v and v not in (float("inf"), float("-inf")):
+            return ["flit", math.copysign(1.0, v) < 0, repr(abs(v))]
+        return None
+    if k == "bin":
+        if not (has_ref(t[2]) or has_ref(t[3])) or (t[1] in CMPS and not has_ref(t[2])):
+            return None
+        l, r = term_pexpr(t[2]), term_pexpr(t[3])
+        return None if l is None or r is None else ["bin", SYM[t[1]], l, r]
+    if k == "un":
+        a = term_pexpr(t[2]) if has_ref(t[2]) else None
+        return None if a is None else ["un", {"neg": "-", "pos": "+", "invert": "~"}[t[1]], a]
+    if k == "builtin":
+        if not has_ref(t[2]):
+            return None
+        args = [term_pexpr(x) for x in [t[2]] + list(t[3])]
+        if any(a is None for a in args):
+            return None
+        head = ["attr", ["root", "math"], t[1]] if t[1] in ("trunc", "floor", "ceil") else ["root", t[1]]
+        return ["call", head, args]
+    if k == "call":
+        if len(t) > 4:
+            return None
+        args = [term_pexpr(x) for x in t[2]]
+        kws = [[n, term_pexpr(x)] for n, x in t[3]]
+        if any(a is None for a in args) or any(v is None for _, v in kws):
+            return None
+        f = ["item", ["root", "f"], t[1]]
+        return ["callkw", f, args, kws] if kws else ["call", f, args]
+    if k == "item":
+        o = term_pexpr(t[1]) if has_ref(t[1]) else None
+        if o is None or t[2][0] != "lit":
+            return None
+        kj = key_json(val_py(t[2][1]))
+        return None if kj is OUTSIDE else ["item", o, kj]
+    if k == "attr":
+        o = term_pexpr(t[1]) if has_ref(t[1]) else None
+        return None if o is None or not t[2].isidentifier() else ["attr", o, t[2]]
+    return None
 
 
 def py_tokens(text):
@@ -969,9 +1070,20 @@ def paths_equal(p, q):
         if ka != kb:
             return False
         x, y = (key_py(a), key_py(b)) if ka == "i" else (a, b)
-        if type(x) is not type(y) or x != y:
+        if not key_same(x, y):
             return False
     return True
+
+
+def key_same(x, y):
+    """the same key as the library's textual equality (and the printer model) sees it: equal values of the same type,
+    tuples element by element — (True, None) and (1, None) are == for Python and two different keys here, exactly as
+    True and 1 are"""
+    if type(x) is not type(y):
+        return False
+    if isinstance(x, tuple):
+        return len(x) == len(y) and all(key_same(a, b) for a, b in zip(x, y))
+    return bool(x == y)
 
 
 # ----------------------------------------------------------------------------
@@ -1316,7 +1428,10 @@ def cases_c06(rng, n):
               [["i", {"t": list(range(40))}]], [["i", {"t": list(range(39)) + [99]}]],
               # numpy scalars as keys (an index from np.argmax, an np.str_ name)
               [["i", {"np": ["int64", 1]}]], [["i", "a"], ["i", {"np": ["int64", 0]}]], [["i", {"np": ["str_", "a"]}], ["i", "b"]],
-              [["i", {"np": ["float64", 1.0]}]]]
+              [["i", {"np": ["float64", 1.0]}]],
+              # bool / None keys: c[True] and c[1] select one entry and are two references; 'None' the string and None
+              [["i", True]], [["i", False]], [["i", None]], [["i", "None"]], [["i", "True"]], [["i", 0]], [["i", {"t": [True, None]}]],
+              [["i", {"t": [1, None]}]]]
     k = 0
     for p in paths:
         for q in paths:
@@ -1343,6 +1458,67 @@ def cases_c06(rng, n):
 
 
 PRINT_OPS = ARITH * 3 + BITS + CMPS
+
+# keys (in key_py's format) that exist in the container K of Env, and a generator of arbitrary ones
+KKEYS = [{"t": [1, "a"]}, {"t": [3]}, {"t": []}, None, -1, {"f": (0.5).hex()}, {"f": (-2.5).hex()}, {"t": [1, {"t": [2, 3]}]},
+         0, 1, True, False, {"t": [-1, {"f": (0.5).hex()}, None, True]}, {"t": [{"t": []}]}]
+KEY_STRS = ["a", "k'", "p q", "", "(1, 2)", "None"]
+KEY_INTS = [0, 1, -1, 3, -7, 2 ** 70, -(2 ** 65)]
+KEY_FLOATS = [0.5, -2.5, -0.0, 0.0, 1e22, 1e-7, 3.0, 0.1 + 0.2, -1.5e300]
+
+
+def gen_keyj(rng, depth=2):
+    if depth > 0 and rng.random() < 0.35:
+        return {"t": [gen_keyj(rng, depth - 1) for _ in range(rng.choice([0, 1, 1, 2, 2, 3]))]}
+    x = rng.random()
+    if x < 0.2:
+        return rng.choice(KEY_STRS)
+    if x < 0.45:
+        return rng.choice(KEY_INTS)
+    if x < 0.6:
+        return rng.random() < 0.5
+    if x < 0.72:
+        return None
+    return {"f": rng.choice(KEY_FLOATS).hex()}
+
+
+def key_item(owner, kj):
+    return ["item", owner, ["lit", {"key": kj}]]
+
+
+KEY_CHAIN = ["attr", key_item(key_item(["ref", "K"], {"t": [1, "a"]}), {"t": [3]}), "real"]       # r['K'][(1, 'a')][(3,)].real
+
+
+def gen_keyleaf(rng):
+    if rng.random() < 0.15:
+        return KEY_CHAIN
+    t = key_item(["ref", "K"], rng.choice(KKEYS) if rng.random() < 0.6 else gen_keyj(rng))
+    if rng.random() < 0.15:
+        t = key_item(t, gen_keyj(rng))          # a second step; where it does not exist both sides raise alike
+    return t
+
+
+def with_keys(rng, t):
+    """the term with about half of its plain leaves replaced by references through tuple / bool / None / negative / float keys"""
+    k = t[0]
+    if k == "ref":
+        return gen_keyleaf(rng) if rng.random() < 0.5 else t
+    if k == "bin":
+        keep_rhs = t[1] in ("pow", "lshift", "rshift")         # exponents and shift counts stay small
+        return [k, t[1], with_keys(rng, t[2]), t[3] if keep_rhs else with_keys(rng, t[3])]
+    if k == "un":
+        return [k, t[1], with_keys(rng, t[2])]
+    if k == "builtin":
+        return [k, t[1], with_keys(rng, t[2]), [with_keys(rng, x) for x in t[3]]]
+    if k == "call":
+        return [k, t[1], [with_keys(rng, x) for x in t[2]], [[n, with_keys(rng, x)] for n, x in t[3]]] + list(t[4:])
+    return t
+
+
+def c11_extra(n):
+    """number of additional print cases with extended keys that cases_c11 appends after its n random terms"""
+    return max(8, n // 4)
+
 
 
 def cases_c11(rng, n):
@@ -1371,6 +1547,18 @@ def cases_c11(rng, n):
     vals0 = {"v0": {"float": (12.345).hex()}, "v1": {"int": 2}, "v2": {"int": 5}, "v3": {"int": 3}}
     for t in fixed:
         yield {"kind": "print", "vals": vals0, "term": t}
+    # tuple / bool / None / negative / float keys (XModel/ParseKeys.lean): r['K'][(1, 'a')][(3,)].real + f['fadd'](r['K'][()], y=r['K'][None]),
+    # every key of K alone, on both sides of an operator and as call arguments, confusable keys, signed zero, big ints
+    kfixed = [["bin", "add", KEY_CHAIN, ["call", "fadd", [key_item(["ref", "K"], {"t": []})], [["y", key_item(["ref", "K"], None)]]]]]
+    for kj in KKEYS + [{"f": (-0.0).hex()}, {"f": (1e22).hex()}, {"f": (1e-7).hex()}, 2 ** 70, -(2 ** 65), "(1, 2)", {"t": [1, 2]},
+                       {"t": [{"t": [1]}, 2]}, {"t": [1, {"t": [2]}]}, {"t": ["a'b", {"t": [{"t": [{"t": []}]}]}]}, {"t": [True, False, None]},
+                       {"t": list(range(12))}]:
+        it = key_item(["ref", "K"], kj)
+        kfixed += [it, ["bin", "mul", it, ["lit", {"int": -3}]], ["bin", "pow", ["lit", {"float": (-1.5).hex()}], it],
+                   ["call", "fadd", [it, ["lit", {"int": 2}]], [["z", it]]], ["un", "neg", it], ["builtin", "round", it, [["lit", {"int": 1}]]],
+                   key_item(it, kj)]
+    for t in kfixed:
+        yield {"kind": "print", "vals": vals0, "term": t, "keys": True}
     # dump/load and copy_expr_from, including keys that contain the container label
     tricky = {"v0": {"int": 3}, "v1": {"int": 2}, "v2": {"int": 5}, "v3": {"int": 7}}
     for kind in ("dumpload", "copyfrom"):
@@ -1414,6 +1602,19 @@ def cases_c11(rng, n):
             continue        # C11's language has finite real constants only (-2j reprints as (-0-2j))
         k += 1
         yield {"kind": "print", "vals": vals, "term": t}
+    # the same language with item keys of every printable kind; a generator of its own, seeded AFTER the terms above, so
+    # that those are the terms they were before these cases existed
+    rng2 = random.Random(rng.random())
+    k = 0
+    while k < c11_extra(n):
+        t0 = gen_term(rng2, rng2.randint(0, 4), PRINT_OPS)
+        if "complex" in json.dumps(t0):
+            continue
+        t = with_keys(rng2, t0)
+        if t == t0:
+            t = ["bin", rng2.choice(PRINT_OPS), t0, gen_keyleaf(rng2)]
+        k += 1
+        yield {"kind": "print", "vals": gen_vals(rng2, ["int", "float"]), "term": t, "keys": True}
 
 
 def main():
@@ -1438,7 +1639,8 @@ def main():
         cases = list(gen(rng, a.n))
         if not a.fixed:
             # the exhaustive prefix is generated by every job with the same content: keep it in job 0 only
-            cases = cases[-a.n:] if a.family != "c06" else cases
+            keep = a.n + (c11_extra(a.n) if a.family == "c11" else 0)
+            cases = cases[-keep:] if a.family != "c06" else cases
     for i, case in enumerate(cases):
         def fail(prop, kind, detail, known=None, i=i):
             failures.append({"property": prop, "kind": kind, "hist": i, "op_index": 0, "detail": detail, "known": known})
